@@ -39,6 +39,8 @@ def derive_seed(base, prop, index):
 
 
 def reexec_pinned():
+    if os.environ.get('BFGSIM_HASHSEED_FREE'):
+        return
     if os.environ.get('PYTHONHASHSEED') != '0':
         env = dict(os.environ)
         env['PYTHONHASHSEED'] = '0'
@@ -307,6 +309,7 @@ class Check:
                 'known_findings_seen': sorted(self.known_seen),
                 'harness_errors': len(self.harness_errors),
                 'jobs': self.jobs,
+                'determinism_selftest': getattr(self, 'selftest', None),
                 'real_components': describe.get('real', []),
                 'stub_components': describe.get('stubs', []),
                 'exhaustive': False,
@@ -321,6 +324,54 @@ class Check:
                                '{}.json'.format(self.prop)), 'w') as f:
             json.dump(ev, f, indent=1, sort_keys=True)
 
+    def determinism_selftest(self):
+        """Same case seeds again, in a fresh harness interpreter with another
+        PYTHONHASHSEED and a different worker count: the behaviour digests
+        (operations, exit codes, executed steps, content digests, bfg9000
+        outcomes, schedule traces) must be identical."""
+        import subprocess
+        k = 4 if self.tier == 'quick' else 12
+        first = sorted(self.cases, key=lambda c: c['seed'])
+        mine = {}
+        for i in range(min(len(self.cases) + len(self.harness_errors),
+                           k * 3)):
+            s = derive_seed(self.seed, self.prop, i)
+            c = next((c for c in self.cases if c['seed'] == s), None)
+            if c is not None and c.get('digest') and not c['violations']:
+                mine[s] = c['digest']
+            if len(mine) >= k:
+                break
+        if not mine:
+            self.selftest = {'seeds': 0, 'variants': 0, 'mismatches': 0}
+            return
+        env = dict(os.environ)
+        env.update({'BFGSIM_HASHSEED_FREE': '1', 'PYTHONHASHSEED': '12345',
+                    'PYTHONDONTWRITEBYTECODE': '1',
+                    'BFGSIM_JOBS': '3', 'VERIF_TIER': self.tier})
+        cmd = [sys.executable, '-m', 'bfgsim.check', self.prop, '--tier',
+               self.tier, '--digests', ','.join(str(s) for s in mine)]
+        if self.params.get('chars') is not None:
+            env['BFGSIM_CHARS'] = json.dumps(self.params['chars'])
+        p = subprocess.run(cmd, cwd=VERIF, env=env, capture_output=True,
+                           text=True, timeout=900)
+        other = {}
+        for line in p.stdout.split('\n'):
+            if line.startswith('DIGESTS '):
+                other = {int(k): v for k, v in
+                         json.loads(line[len('DIGESTS '):]).items()}
+        bad = [s for s in mine if other.get(s) != mine[s]]
+        self.selftest = {'seeds': len(mine), 'variants': 2,
+                         'mismatches': len(bad),
+                         'how': 'second pass in a fresh interpreter with '
+                                'PYTHONHASHSEED=12345 and 3 workers'}
+        if bad:
+            self.harness_errors.append({
+                'seed': bad[0], 'error': 'determinism self-test: digest of '
+                'case seed {} differs between two runs ({} vs {}); stderr '
+                'of the second pass:\n{}'.format(
+                    bad[0], mine[bad[0]], other.get(bad[0]),
+                    p.stderr[-1500:])})
+
     def run(self):
         t0 = time.monotonic()
         self.out('check {} tier={} VERIF_SEED={} jobs={} budget={}s'.format(
@@ -331,6 +382,7 @@ class Check:
                 selftest(self)
             self.run_pinned()
             self.search()
+            self.determinism_selftest()
             self.process_cases()
         finally:
             shutil.rmtree(self.scratch, ignore_errors=True)
@@ -373,6 +425,7 @@ def main(argv=None):
     ap.add_argument('--tier', default=os.environ.get('VERIF_TIER', 'quick'),
                     choices=['quick', 'thorough'])
     ap.add_argument('--replay')
+    ap.add_argument('--digests')
     ap.add_argument('--budget', type=float,
                     default=float(os.environ.get('BFGSIM_BUDGET_S', 0)) or
                     None)
@@ -387,6 +440,29 @@ def main(argv=None):
     from . import bfgrun
     where = bfgrun.preload()
     print('bfg9000 loaded from {}'.format(where), flush=True)
+
+    if args.digests:
+        chk = Check(args.prop, args.tier, seed, args.jobs, 1)
+        if os.environ.get('BFGSIM_CHARS'):
+            chk.params['chars'] = json.loads(os.environ['BFGSIM_CHARS'])
+        seeds = [int(x) for x in args.digests.split(',') if x]
+        out = {}
+        os.makedirs(chk.scratch, exist_ok=True)
+        import concurrent.futures as cf2
+        ctx = multiprocessing.get_context('fork')
+        with cf2.ProcessPoolExecutor(max_workers=args.jobs,
+                                     mp_context=ctx) as pool:
+            futs = {s: pool.submit(_case_worker, (
+                MODULES[args.prop], s,
+                os.path.join(chk.scratch, 'w{}'.format(s)), chk.params))
+                for s in seeds}
+            for s, f in futs.items():
+                kind, data = f.result()
+                out[s] = data.get('digest') if kind == 'ok' else \
+                    'harness:' + data['error'][-300:]
+        shutil.rmtree(chk.scratch, ignore_errors=True)
+        print('DIGESTS ' + json.dumps(out))
+        return 0
 
     if args.replay:
         mod = importlib.import_module('bfgsim.' + MODULES[args.prop])
